@@ -22,9 +22,9 @@ STUBS = []
 ASSUMPTIONS = ["listeners are distinct callables"]
 
 # skeleton: string over R1 R2 (register on e1 / e2) and D (dispatch round)
-QUICK = ["R1 D", "D R1 D", "R1 D D", "R1 R1 D D R1 D", "R1 R1 D", "R1 R2 D", "R1 D R1 D", "R1 R1 R1 D", "R1 R2 R1 D", "R1 R1 D R1 D", "R2 R1 D R2 D", "R1 D R1 D R1 D",
+QUICK = ["R1 D", "D R1 D", "R1 D D", "R1 R1 D D R1 D", "R1 D R1 R1 D", "R2 D R2 R1 D", "R1 R1 D", "R1 R2 D", "R1 D R1 D", "R1 R1 R1 D", "R1 R2 R1 D", "R1 R1 D R1 D", "R2 R1 D R2 D", "R1 D R1 D R1 D",
          "R1 R1 R1 R1 D", "R1 R2 D R2 R1 D", "R1 R1 D R1 R1 D"]
-THOROUGH = QUICK + ["R1 R2 R1 R2 D", "R1 R1 R1 D R1 D", "R1 D R1 D R1 R1 D",
+THOROUGH = QUICK + ["R1 R2 D R2 R1 R2 D", "R1 R2 R1 R2 D", "R1 R1 R1 D R1 D", "R1 D R1 D R1 R1 D",
                     "R1 R1 R1 R1 R1 D", "R1 R1 R2 D R1 R1 D D", "R1 R1 D R1 D R1 R1 D"]
 
 
